@@ -65,6 +65,18 @@ def main(argv):
         else:
             i += 1
     os.environ["VERIF_TIER"] = tier
+    # watchdog: a check that does not end (a changed tree may loop for ever inside flowdyn, e.g. a time step that collapses to 0)
+    # is a machinery failure with a message and a stack, not a silent hang; the limits are far above any run on the unchanged tree
+    import faulthandler, threading
+    limit = float(os.environ.get("VERIF_WATCHDOG_S", 3600 if tier == "quick" else 6 * 3600))
+
+    def _expired():
+        faulthandler.dump_traceback(all_threads=True)
+        print("MACHINERY-FAILURE property=%s the check did not end within %.0f s (watchdog)" % (prop, limit), flush=True)
+        os._exit(2)
+    wd = threading.Timer(limit, _expired)
+    wd.daemon = True
+    wd.start()
     try:
         if replay:
             return replay_file(prop, replay)
